@@ -112,6 +112,13 @@ class _E1(ast.NodeTransformer):
 
     def visit_UnaryOp(self, n):
         self.generic_visit(n)
+        # De Morgan: not (A or B) == not A and not B   (same short-circuit order)
+        if isinstance(n.op, ast.Not) and isinstance(n.operand, ast.BoolOp):
+            dual = ast.And() if isinstance(n.operand.op, ast.Or) else ast.Or()
+            vals = [self.visit_UnaryOp(ast.UnaryOp(op=ast.Not(), operand=v)) for v in n.operand.values]
+            return ast.copy_location(ast.BoolOp(op=dual, values=vals), n)
+        if isinstance(n.op, ast.Not) and isinstance(n.operand, ast.UnaryOp) and isinstance(n.operand.op, ast.Not) and False:
+            return n.operand.operand
         if isinstance(n.op, ast.Not) and isinstance(n.operand, ast.Compare) and len(n.operand.ops) == 1 \
                 and type(n.operand.ops[0]) in INVERT:
             c = n.operand
@@ -180,6 +187,13 @@ class _E1(ast.NodeTransformer):
         info = self.callee_info(n) if self.callee_info is not None else None
         self.generic_visit(n)
         f = n.func
+        # a package function that only returns a literal (default_skyversion() -> 2) reads as that literal
+        if info is not None and len(info) > 2 and info[2] is not None and not n.args and not n.keywords:
+            body = [st for st in info[2].body if not (isinstance(st, ast.Expr) and isinstance(st.value, ast.Constant))]
+            if len(body) == 1 and isinstance(body[0], ast.Return) and isinstance(body[0].value, ast.Constant) and not info[2].args.args:
+                return ast.copy_location(ast.Constant(value=body[0].value.value), n)
+        if info is not None:
+            info = info[:2]
         # messages of warnings and log records
         if (isinstance(f, ast.Name) and f.id in ('warn',)) or (isinstance(f, ast.Attribute) and (
                 (f.attr in ('debug', 'info', 'warning', 'error', 'critical', 'exception') and isinstance(f.value, ast.Name) and f.value.id in ('log', 'logger', 'logging'))
@@ -1320,6 +1334,30 @@ def _forward_subst(fn, module_exprs=None):
     return changed[0]
 
 
+def _default_override(fn):
+    """x = A; if c: x = B        ->   x = B if c else A      (A cannot raise: a name or a literal; c does not read x)"""
+    changed = False
+    for owner in ast.walk(fn):
+        for fld in ('body', 'orelse', 'finalbody'):
+            body = getattr(owner, fld, None)
+            if not (isinstance(body, list) and len(body) >= 2 and isinstance(body[0], ast.stmt)) or isinstance(owner, ast.Lambda):
+                continue
+            i = 0
+            while i + 1 < len(body):
+                a, b = body[i], body[i + 1]
+                if isinstance(a, ast.Assign) and len(a.targets) == 1 and isinstance(a.targets[0], ast.Name) and _total_expr(a.value) \
+                        and isinstance(b, ast.If) and not b.orelse and len(b.body) == 1 and isinstance(b.body[0], ast.Assign) \
+                        and len(b.body[0].targets) == 1 and isinstance(b.body[0].targets[0], ast.Name) and b.body[0].targets[0].id == a.targets[0].id \
+                        and a.targets[0].id not in {x.id for x in ast.walk(b.test) if isinstance(x, ast.Name)} \
+                        and a.targets[0].id not in {x.id for x in ast.walk(b.body[0].value) if isinstance(x, ast.Name)}:
+                    body[i] = ast.copy_location(ast.Assign(targets=[a.targets[0]], value=ast.IfExp(test=b.test, body=b.body[0].value, orelse=a.value)), a)
+                    del body[i + 1]
+                    changed = True
+                    continue
+                i += 1
+    return changed
+
+
 def _ifexp_assign(fn):
     """if c: x = a else: x = b   ->   x = a if c else b   (same single plain target in both branches)."""
     changed = False
@@ -1577,8 +1615,8 @@ def normal_form(fn, callee_info=None, consts=None):
     _const_prop(c, consts)
     c = _FoldConst().visit(c)
     if c.body and isinstance(c.body[0], ast.Expr) and isinstance(c.body[0].value, ast.Constant) and isinstance(c.body[0].value.value, str):
-        # indentation of a docstring is not content
-        c.body[0].value.value = '\n'.join(l.strip() for l in c.body[0].value.value.strip().split('\n'))
+        # a docstring is documentation, not behaviour (a rule that reads docstrings is given the current one, see roles._substitute_reference)
+        c.body = c.body[1:] or [ast.Pass()]
     for _ in range(6):
         before = ast.dump(c)
         c = _E1(callee_info).visit(c)
@@ -1594,6 +1632,7 @@ def normal_form(fn, callee_info=None, consts=None):
         _tail_return_dedup(c)
         _return_ifexp(c)
         _list_accumulation(c)
+        _default_override(c)
         _ifexp_assign(c)
         _guard_continue(c)
         _loop_to_comprehension(c)
